@@ -29,7 +29,8 @@ func (m *Model) GetBrightness(opts ...resource.ReadOption) (*traits.Brightness, 
 
 func (m *Model) UpdateBrightness(light *traits.Brightness, opts ...resource.WriteOption) (*traits.Brightness, error) {
 	if m.setLevelFromPreset(light) {
-		opts = append(opts, resource.WithMoreUpdatePaths("level_percent"))
+		// (appended to a slice of our own: the caller's array may have room behind what it passed, and be shared)
+		opts = append(opts[:len(opts):len(opts)], resource.WithMoreUpdatePaths("level_percent"))
 	}
 	res, err := m.brightness.Set(light, opts...)
 	if err != nil {
